@@ -157,11 +157,28 @@ def relational(fact):
             out.append(("Eq", term, ("int", val)))
         else:
             out.append(("Ne", term, ("int", val)))
+        # `cond.then(|| ..)` / `cond.then_some(..)` is Some exactly when cond holds; `opt.flatten()` is Some only if opt is Some
+        if isinstance(term, tuple) and term and term[0] == "discr" and isinstance(val, int) and not isinstance(val, bool):
+            some = (val == 1) if kind == "eq" else (val == 0)
+            x = values.strip_payload(term[1])
+            for _ in range(3):
+                if isinstance(x, tuple) and x and x[0] == "call" and values.strip_generics(x[1]).split("::")[-1] == "flatten" and "option::Option" in x[1] and x[2] and some:
+                    x = values.strip_payload(x[2][0])
+                    continue
+                break
+            if isinstance(x, tuple) and x and x[0] == "call" and values.strip_generics(x[1]).split("::")[-1] in ("then", "then_some") and "bool" in x[1] and x[2] \
+                    and (some or x is values.strip_payload(term[1])):
+                out.extend(relational(("eq", x[2][0], bool(some))))
         return out
     t = term
     while isinstance(t, tuple) and t[0] == "un" and t[1] == "Not":
         t = t[2]
         truth = not truth
+    if isinstance(t, tuple) and t and t[0] == "phi" and truth:
+        # `a && b` lowered to a value: phi(false, b) is true only through b
+        nz = [x for x in t[1] if x != ("int", 0)]
+        if len(nz) == 1 and len(nz) < len(t[1]):
+            return relational(("eq", nz[0], True))
     if isinstance(t, tuple) and t[0] == "bin" and t[1] in CMP_NEG:
         op = t[1] if truth else CMP_NEG[t[1]]
         a, b = t[2], t[3]
